@@ -821,6 +821,48 @@ def bound_names(lines: list[str]) -> set[str]:
     return res
 
 
+def bound_objects(lines: list[str]) -> dict[str, tuple]:
+    """name -> what it is bound to, (module, original name) / ("<module>", dotted) — by CPython's ast."""
+    res: dict[str, tuple] = {}
+    for l in lines:
+        try:
+            node = ast.parse(l.strip()).body[0]
+        except SyntaxError:
+            continue
+        if isinstance(node, ast.Import):
+            for al in node.names:
+                if al.asname:
+                    res[al.asname] = ("<module>", al.name)
+                else:
+                    parts = al.name.split(".")
+                    for i in range(1, len(parts) + 1):
+                        res[".".join(parts[:i])] = ("<module>", ".".join(parts[:i]))
+        elif isinstance(node, ast.ImportFrom):
+            for al in node.names:
+                res[al.asname or al.name] = ("." * node.level + (node.module or ""), al.name)
+    return res
+
+
+def expected_objects(ops: list[tuple]) -> dict[str, tuple]:
+    """What each name was imported as by the operation sequence itself (last import wins) — independent of the
+    tracker's tables and of the model."""
+    exp: dict[str, tuple] = {}
+    for op in ops:
+        if op[0] == "F":
+            for n, a in op[2]:
+                exp[a or n] = (op[1], n)
+        elif op[0] == "M":
+            if op[2]:
+                exp[op[2]] = ("<module>", op[1])
+            else:
+                parts = op[1].split(".")
+                for i in range(1, len(parts) + 1):
+                    exp[".".join(parts[:i])] = ("<module>", ".".join(parts[:i]))
+        elif op[0] == "A":
+            pass        # add_name: alias choice is the tracker's own; covered by the refs comparison
+    return exp
+
+
 def tie_imports(ctx: Ctx) -> None:
     rng = ctx.rng
     n = ctx.pick(2500, 20000)
@@ -844,6 +886,7 @@ def tie_imports(ctx: Ctx) -> None:
     if len(model) != len(seqs):
         raise ToolFailure("driver line count mismatch (imports)")
     bad = 0
+    nwrong = 0
     for ops, line, mline in zip(seqs, lines, model):
         ctx.case(("C", line), nontrivial=len(ops) >= 3)
         ctx.dist("import_ops", str(min(len(ops), 9)))
@@ -865,10 +908,28 @@ def tie_imports(ctx: Ctx) -> None:
         # property oracle on the real tracker: required ∧ imported ⇒ bound by the emitted lines
         bound = bound_names(rl)
         unbound = sorted(r for r in t.required_names if r in t.module_for and r not in bound)
+        # … and bound to the object the source imported: `from m import a as b` must stay `a as b`
+        got, exp = bound_objects(rl), expected_objects(ops)
+        has_add_name = any(op[0] == "A" for op in ops)
+        # (only names the sequence binds exactly once: clashes between `import a.b` and `from m import a` have no
+        #  single right answer)
+        targets: list[str] = []
+        for op in ops:
+            if op[0] == "F":
+                targets += [a or n for n, a in op[2]]
+            elif op[0] == "M":
+                targets += [op[2]] if op[2] else [".".join(op[1].split(".")[:i]) for i in range(1, op[1].count(".") + 2)]
+        once = {n for n in targets if targets.count(n) == 1}
+        wrong = sorted(n for n, o in got.items() if n in exp and n in once and exp[n] != o) if not has_add_name else []
         ctx.dist("import_outcome", "same" if same else "differs")
-        if same and not unbound:
+        if same and not unbound and not wrong:
             continue
         ctx.count("disagreements_checked")
+        if wrong and nwrong < 3:
+            nwrong += 1
+            ctx.report({"class": "import-binds-wrong-object"},
+                       "import_lines() binds %s to %s, the source imported %s" % (wrong[0], got[wrong[0]], exp[wrong[0]]),
+                       {"part": "C", "ops": ops, "import_lines": rl, "model": mline})
         if unbound:
             ctx.report({"class": "import-not-emitted"}, f"required imported names {unbound} are not bound by import_lines()",
                        {"part": "C", "ops": ops, "import_lines": rl, "model": mline})
@@ -878,7 +939,7 @@ def tie_imports(ctx: Ctx) -> None:
                 ctx.violation("ImportTracker correspondence broken (model ≠ mypy.stubutil.ImportTracker)",
                               {"broken": "correspondence Driver/C19 `I`", "ops": ops, "real_lines": canon_lines(rl),
                                "real_required": sorted(t.required_names), "real_refs": refs, "model": mline},
-                              found_input=bool(unbound))
+                              found_input=bool(unbound or wrong))
     ctx.sample({"import_ops": lines[3], "model_and_impl": model[3]})
     ctx.coverage["import_disagreements"] = bad
 
